@@ -77,6 +77,7 @@ type BeaconScenario struct {
 type Reshare struct {
 	AtRound    uint64 `json:"at_round"`
 	NewT       int    `json:"new_t"`
+	Drop       int    `json:"drop,omitempty"` // node (position + 1) that is no longer a member of the new group although it was dealt a share of it
 	AnnounceMs int64  `json:"announce_ms"` // when TransitionNewGroup is called (from start)
 }
 
@@ -734,6 +735,18 @@ func (e *beaconEngine) announceReshare() {
 	g.Threshold = rs.NewT
 	g.TransitionTime = refTimeOfRound(rs.AtRound, e.sc.PeriodS, e.gen.Unix())
 	g.PublicKey = &key.DistPublic{Coefficients: nd.Commits}
+	if rs.Drop > 0 && rs.Drop <= len(e.nodes) {
+		// a proposed member that did not make it into the new group: its index is a hole, yet it holds a share
+		gone := uint32(e.nodes[rs.Drop-1].sidx)
+		var kept []*key.Node
+		for _, nd := range g.Nodes {
+			if nd.Index != gone {
+				kept = append(kept, nd)
+			}
+		}
+		g.Nodes = kept
+		e.rec.Count("fault:member_dropped_by_reshare", 1)
+	}
 	ep := &epoch{from: rs.AtRound, t: rs.NewT, dealt: nd, group: &g}
 	e.epochs = append(e.epochs, ep)
 	e.rec.Count("fault:reshare", 1)
